@@ -69,14 +69,17 @@ def render(kinds, rng):
 
 
 def extract_frontend_tables():
+    """Tables of the checked-in front-end parser (kiki/src/parser.rs). The column order (terminals / nonterminals in
+    declaration order of parser.kiki) comes from a snapshot taken on the pinned tree, NOT from the code under test: a tree
+    whose front end mangles declarations must not corrupt the oracle. What the current tree extracts from parser.kiki is
+    returned separately and only feeds the drift diagnostic."""
+    snap = json.load(open(os.path.join(os.path.dirname(__file__), "parser_kiki_snapshot.json")))
     src = open("/repo/kiki/src/parser.kiki", encoding="utf-8").read()
     r = common.kv("gen", [{"id": 0, "src": src, "want": ["grammar"]}])[0]
-    if "grammar" not in r:
-        raise ToolError("kiki no longer accepts its own grammar parser.kiki: %s" % json.dumps(r["res"])[:300])
-    kg = r["grammar"]
+    seen = r.get("grammar")
     text = open("/repo/kiki/src/parser.rs", encoding="utf-8").read()
-    t = grammar.extract_tables(text, kg["ts"], kg["nts"])
-    return kg, t
+    t = grammar.extract_tables(text, snap["ts"], snap["nts"])
+    return snap, t, seen
 
 
 def vcase(why, kinds, src, spans, pred, obs):
@@ -117,7 +120,7 @@ def check(prop, tier, seed):
     wd = common.workdir("frontend_%s" % tier)
     common.build_harness()
     rng = random.Random(seed * 23 + 11)
-    kg, tables = extract_frontend_tables()
+    kg, tables, seen = extract_frontend_tables()
     tpath = os.path.join(wd, "parser_rs_tables.json")
     with open(tpath, "w") as f:
         f.write(json.dumps(tables) + "\n")
@@ -136,9 +139,12 @@ def check(prop, tier, seed):
     run.notes["parser_rs_tables"] = tm[0]
     # grammar-of-record drift
     gor = r.tagged("GRAMMAR-OF-RECORD")[0]
-    mine = [(x["lhs"], x["rhs"]) for x in kg["rules"]]
     rec = [(x["lhs"], x["rhs"]) for x in gor["rules"]]
-    if kg["start"] != gor["start"] or sorted(map(json.dumps, mine)) != sorted(map(json.dumps, rec)):
+    snap_rules = [(x["lhs"], x["rhs"]) for x in kg["rules"]]
+    if kg["start"] != gor["start"] or sorted(map(json.dumps, snap_rules)) != sorted(map(json.dumps, rec)):
+        raise ToolError("lib/parser_kiki_snapshot.json and spec/KikiSyntax.tla disagree about the grammar of record")
+    mine = [(x["lhs"], x["rhs"]) for x in seen["rules"]] if seen else []
+    if seen is None or seen["start"] != gor["start"] or sorted(map(json.dumps, mine)) != sorted(map(json.dumps, rec)):
         print("CONFORMANCE-DRIFT property=C09 kiki/src/parser.kiki no longer declares the grammar of record (spec/KikiSyntax.tla); "
               "C09 is judged against the published grammar in the specification")
         run.notes["grammar_of_record_drift"] = True
